@@ -554,6 +554,13 @@ def _eval_guard(e, axis, d, r):
         return r
     if isinstance(e, ast.Call) and isinstance(e.func, ast.Name) and e.func.id == 'len' and e.args and isinstance(e.args[0], ast.Attribute) and e.args[0].attr == 'shape':
         return r
+    if isinstance(e, ast.Call) and isinstance(e.func, ast.Name) and e.func.id == 'len' and e.args and isinstance(e.args[0], ast.Attribute) and e.args[0].attr == 'lshape':
+        return r - 1                                     # the LieTensor shape without the last (item) dimension
+    if isinstance(e, ast.BinOp) and isinstance(e.op, ast.Mod):
+        a, b = _eval_guard(e.left, axis, d, r), _eval_guard(e.right, axis, d, r)
+        if b == 0:
+            raise ValueError('modulo zero')
+        return a % b
     if isinstance(e, ast.UnaryOp) and isinstance(e.op, ast.USub):
         return -_eval_guard(e.operand, axis, d, r)
     if isinstance(e, ast.UnaryOp) and isinstance(e.op, ast.Not):
@@ -577,6 +584,85 @@ def _eval_guard(e, axis, d, r):
     raise ValueError('outside the guard language: ' + ast.dump(e)[:40])
 
 
+def _ifexp_alternatives(e):
+    """all expressions obtained by choosing one arm of every conditional expression in e"""
+    import itertools
+    if isinstance(e, ast.IfExp):
+        return _ifexp_alternatives(e.body) + _ifexp_alternatives(e.orelse)
+    if not isinstance(e, ast.AST):
+        return [e]
+    fields, choices = [], []
+    for name, val in ast.iter_fields(e):
+        fields.append(name)
+        if isinstance(val, list):
+            per = [_ifexp_alternatives(x) for x in val]
+            choices.append([list(c) for c in itertools.product(*per)] if per else [[]])
+        else:
+            choices.append(_ifexp_alternatives(val))
+    out = []
+    for combo in itertools.islice(itertools.product(*choices), 64):
+        out.append(ast.copy_location(type(e)(**dict(zip(fields, combo))), e) if hasattr(e, 'lineno') else type(e)(**dict(zip(fields, combo))))
+    return out
+
+
+def _dim_rebindings(fnode):
+    """[(source, {(rank, dim): value | None})] for every `dim = <expr>` of the function, local integer names substituted, every arm of a conditional
+    expression taken as an alternative"""
+    from ..expr import inline_straight
+    out = []
+    for n in ast.walk(fnode):
+        if isinstance(n, ast.Assign) and len(n.targets) == 1 and isinstance(n.targets[0], ast.Name) and n.targets[0].id == 'dim':
+            try:
+                v = inline_straight(fnode, upto=n).value(n.value)
+            except Exception:
+                v = n.value
+            for alt in _ifexp_alternatives(v):
+                vals = {}
+                for r in (2, 3, 4):
+                    for d in range(-r, r):
+                        try:
+                            vals[(r, d)] = _eval_guard(alt, 'dim', d, r)
+                        except (ValueError, TypeError):
+                            vals[(r, d)] = None
+                out.append((src(alt), vals))
+    return out
+
+
+@guarded
+def rule_order(repo, tier):
+    """The doubling scan combines item j with item j - s for the strides s = 1, 2, 4, ... IN THAT ORDER: after the pass with stride s every item holds the fold of
+    the 2s items ending at it.  The iterable of the stride loop is therefore an ordered, ascending sequence (a tensor / list / range built from an increasing
+    range); a set has hash order (ascending only for few small powers of two), a reversed / descending sequence combines the wrong partial folds."""
+    res = RuleResult('C12.ORDER', 'cumops_: the strides of the doubling passes are visited in ascending order - the loop iterates an ordered sequence (never a set / dict / '
+                     'reversed sequence)', floor=1)
+    f = repo.func(OPS, 'cumops_')
+    loops = [n for n in ast.walk(f.node) if isinstance(n, ast.For) and any(isinstance(c, ast.Call) and isinstance(c.func, ast.Attribute) and c.func.attr in ('index_copy_', 'copy_', 'index_select')
+                                                                        or isinstance(c, ast.Subscript) and isinstance(c.ctx, ast.Store) for b in n.body for c in ast.walk(b))]
+    if not loops:
+        raise AnalysisError('C12.ORDER: the doubling loop of cumops_ was not found')
+    for lp in loops:
+        it = lp.iter
+        v = inline_straight(f.node, upto=lp).value(it) if not isinstance(it, (ast.Set, ast.SetComp)) else it
+        bad = None
+        for x in ast.walk(v):
+            if isinstance(x, (ast.Set, ast.SetComp, ast.Dict, ast.DictComp)):
+                bad = 'a set / dict (hash order)'
+            elif isinstance(x, ast.Call) and (dotted(x.func) or '') in ('set', 'frozenset', 'dict.fromkeys'):
+                bad = 'a set (hash order)'
+            elif isinstance(x, ast.Call) and ((dotted(x.func) or '').split('.')[-1] in ('reversed', 'flip') or (isinstance(x.func, ast.Attribute) and x.func.attr in ('flip', 'reverse'))):
+                bad = 'a reversed sequence'
+            elif isinstance(x, ast.Call) and (dotted(x.func) or '') == 'sorted' and any(k.arg == 'reverse' and isinstance(k.value, ast.Constant) and k.value.value for k in x.keywords):
+                bad = 'a descending sequence'
+            elif isinstance(x, ast.Slice) and isinstance(x.step, ast.UnaryOp) and isinstance(x.step.op, ast.USub):
+                bad = 'a reversed slice'
+        res.inst({'function': f.fq, 'stride iterable': src(v)[:70], 'ordered ascending': bad is None}, (f.fq, src(it)[:60]))
+        if bad:
+            res.add(Finding('C12.ORDER', f, 'the strides of the doubling scan are iterated from `%s`, %s: the passes must run with stride 1, 2, 4, ... in this order (each '
+                            'pass doubles the length of the folded segment); in another order items are combined with the wrong partial folds for every non-commutative '
+                            'operation' % (src(v)[:60], bad), node=lp, construct='stride order'))
+    return res
+
+
 @guarded
 def rule_negdim(repo, tier):
     res = RuleResult('C12.NEGDIM', 'the scans accept every dimension in either sign ("every dimension"): the axis argument is handed to torch as it is, or '
@@ -590,6 +676,15 @@ def rule_negdim(repo, tier):
         for node, why in uses:
             res.add(Finding('C12.NEGDIM', f, '`%s`: %s without normalising it first; for a negative dim (as valid as its non-negative twin) the count is '
                             'empty / the offset is wrong and the scan runs along another dimension' % (src(node)[:60], why), node=node))
+        # a normalisation of the axis keeps torch's meaning: the rebound value is dim modulo the RANK OF THE STORAGE (so dim = -2 of a (B, F, 4) LieTensor
+        # stays the frame axis); counting negative axes against lshape / rank - 1 silently moves every negative dim one axis to the left
+        for alt_src, vals in _dim_rebindings(f.node):
+            bad = [(r, d, v) for (r, d), v in sorted(vals.items()) if v is not None and v % r != d % r]
+            res.inst({'function': f.fq, 'axis normalisation': alt_src[:60], 'equals dim modulo the rank': not bad}, (f.fq, 'norm', alt_src[:60]))
+            if bad:
+                r, d, v = bad[0]
+                res.add(Finding('C12.NEGDIM', f, 'the axis normalisation `%s` maps dim = %d of a rank-%d tensor to axis %d: torch (and every caller that passes a negative '
+                                'axis, e.g. cumprod(w, dim=-2) on a (B, F, 4) LieTensor) means axis %d' % (alt_src[:60], d, r, v, d % r), construct='axis normalisation changes the axis'))
         # range guards on the axis: an assert (or `if ...: raise`) that compares dim with the rank must admit the whole range [-rank, rank - 1]
         for node, test, positive in _dim_guards(f.node):
             verdicts = {}
@@ -612,6 +707,10 @@ def rule_negdim(repo, tier):
     okg = [[_eval_guard(t, 'dim', -3, 3) for _, t, _ in _dim_guards(x)] for x in fg]
     if okg != [[False], [True]]:
         raise AnalysisError('C12.NEGDIM: guard fixtures no longer classified (%r)' % okg)
+    fr = ast.parse('def f(v, dim):\n    n = len(v.lshape) if hasattr(v, "lshape") else v.dim()\n    dim = dim % n\ndef g(v, dim):\n    dim = dim % v.dim()\n').body
+    cls = [[any(v is not None and v % r != d % r for (r, d), v in vals.items()) for _, vals in _dim_rebindings(x)] for x in fr]
+    if cls != [[True, False], [False]]:
+        raise AnalysisError('C12.NEGDIM: normalisation fixtures no longer classified (%r)' % cls)
     fx = ast.parse('def f(v, dim):\n    s = (slice(None),) * dim + (1,)\n    return v[s]\ndef g(v, dim):\n    dim = dim % v.dim()\n    s = (slice(None),) * dim + (1,)\n    return v[s]\n').body
     if len(_negdim_uses(fx[0])) != 1 or len(_negdim_uses(fx[1])) != 0:
         raise AnalysisError('C12.NEGDIM: fixtures no longer classified')
@@ -711,6 +810,6 @@ def rules(repo, tier):
     from ..docsig import rule_docsig
     from ..axisdefault import rule_axisdefault
     from ..stale import rule_stale
-    return [rule_ki(repo, tier), rule_role(repo, tier), rule_ret(repo, tier), rule_opview(repo, tier), rule_sb(repo, tier), rule_clone_alias(repo, tier), rule_deleg(repo, tier), rule_ext(repo, tier), rule_inplace(repo, tier), rule_negdim(repo, tier), rule_memo12(repo, tier),
+    return [rule_ki(repo, tier), rule_order(repo, tier), rule_role(repo, tier), rule_ret(repo, tier), rule_opview(repo, tier), rule_sb(repo, tier), rule_clone_alias(repo, tier), rule_deleg(repo, tier), rule_ext(repo, tier), rule_inplace(repo, tier), rule_negdim(repo, tier), rule_memo12(repo, tier),
             rule_stale(repo, 'C12.STALE', [(OPS, 'cumops_')]), rule_optional(repo, 'C12.OPT', [OPS])] + mode_rules(repo, 'C12', [OPS]) + [rule_callsig(repo, 'C12.SIG', [OPS]), rule_docsig(repo, 'C12.DOC', [OPS])] + [
             rule_axisdefault(repo, 'C12.AXDEF', [OPS])]
